@@ -342,6 +342,10 @@ func (ex *Exec) cutLoop(fr *Frame, li *loopInfo, pc *Term, st *State, nloops int
 		if n == "next" {
 			old := st.next
 			st.next = Fresh("next", BV64)
+			nextSyms[st.next] = true
+			if b, k, ok := splitAddConst(old); ok && nextSyms[b] {
+				nextGE[st.next] = idBound{b, k}
+			}
 			ex.assume(pc, ULe(old, st.next))
 			continue
 		}
